@@ -1915,6 +1915,23 @@ def _property_values_nonzero(F, s, e):
                         "a Property is built with an input that was not tested against zero: %s" % bad)
 
 
+def den_not_one(d):
+    """Guard d is the side of a comparison of an exponent's denominator (`to_rational(..).1`) with one on which it is NOT one:
+    `den == one` false, or `den != one` true."""
+    if d[0] != "bool":
+        return False
+    ap, flip = k2.peel_not(d[1])
+    r = ap[0]
+    if r[0] != "call" or ap[1] or "BigInt as core::cmp::PartialEq>::" not in r[1]:
+        return False
+    txt = ap_str(ap)
+    if "to_rational" not in txt or ".1" not in txt:
+        return False
+    is_eq = r[1].endswith("::eq")
+    val = (d[2] is True) != flip
+    return val != is_eq
+
+
 def _root_degree(F, s, e):
     """Number::root(exp) is only called with a degree >= 2: a literal, or the checked i32 conversion of the exponent's denominator
     on the branch where the denominator is not one."""
@@ -1929,8 +1946,7 @@ def _root_degree(F, s, e):
                 continue
             txt = ap_str(ap)
             if cf.path == "types::number::Number::pow" and "BigInt::as_int(types::numeric::Numeric::to_rational(arg2.value).1)" in txt:
-                den_ne_one = any(d[0] == "bool" and d[2] is False and "BigInt as core::cmp::PartialEq>::eq" in ap_str(d[1]) and "to_rational" in ap_str(d[1])
-                                 for d in (cf.guard_desc(g) for g in cf.guards_of(cb)))
+                den_ne_one = any(den_not_one(d) for d in (cf.guard_desc(g) for g in cf.guards_of(cb)))
                 if den_ne_one:
                     continue
             bad.append("%s passes %s" % (cf.path, txt[:80]))
